@@ -892,12 +892,12 @@ def prune_tie(r, tie, stats):
     for rr in (rep, repc):
         tie["modelruns"] = tie.get("modelruns", 0) + 1
         if not rr.get("model") or not all(rr["model"].values()):
-            out.append((f"the old node/link numbers printed by the driver (fastPrune) do not reproduce the lattice of the model's posteriorPruneFast: {rr.get('model')}", False))
+            out.append((f"driver: the parts of prunePartsFast (old node/link numbers) do not make up the lattice of posteriorPruneFast: {rr.get('model')}", False))
     for dd in (rep.get("direct"), repc.get("direct")):
         if dd is not None:
             tie["direct"] += 1
             if not all(dd.values()):
-                out.append((f"the driver's shared evaluation (fastPrune) differs from the model's posteriorPrune / keepOrder / keptLinks / exitsLoop: {dd}", False))
+                out.append((f"driver: posteriorPruneFast / prunePartsFast differ from the proof-side posteriorPrune / keepOrder / keptLinks, or exitsLoop from exitsCut: {dd}", False))
     # ---- clauses of latticeOKB on the C lattice after pruning (driver: `before` of the block built from the C dump)
     cl = repc["before"]
     for name, v in cl.items():
@@ -999,9 +999,9 @@ def prune_obligations(c, tie, pv, nreq):
     c.oblige("correspondence: posteriorPrune of the model = lattice_posterior_prune on every dumped lattice: return value, surviving nodes (list order, "
              "id = position), links (exit lists in node order: endpoints, ef, ascr), start/end, result of a second call, best path afterwards",
              tie["compared"] > 0 and not tie["mismatch"], dict(compared=tie["compared"], mismatches=tie["mismatch"][:3]))
-    c.oblige("the lattice and return value the driver prints are those of the model's posteriorPruneFast (= posteriorPrune by posteriorPruneFast_eq) on "
-             "every run; the old numbers of the surviving nodes/links it prints reproduce that lattice; on the small lattices (<= 40 links) they also agree "
-             "with the model's proof-side posteriorPrune / keepOrder / keptLinks, and exitsLoop = exitsCut", tie["direct"] > 0 and not any("fastPrune" in m.get("what", "") for m in tie["mismatch"]),
+    c.oblige("the driver runs the model's posteriorPruneFast (= posteriorPrune, posteriorPruneFast_eq) and prunePartsFast (= keepOrder, keptLinks, nPruned, "
+             "prunePartsFast_eq); the parts make up the lattice on every run; on the small lattices (<= 40 links) the proof-side definitions "
+             "posteriorPrune / keepOrder / keptLinks themselves give the same, and exitsLoop = exitsCut", tie["direct"] > 0 and not any(m.get("what", "").startswith("driver:") for m in tie["mismatch"]),
              dict(direct_runs=tie["direct"], model_runs=tie.get("modelruns", 0)))
     impl = [o for o in pv if o.get("_found") is True]
     c.oblige("oracle on the implementation's pruned lattices: clauses endpoints, distinct, markers, nodeTimes, linkTimes, linkGrammar, startGrammar "
